@@ -66,6 +66,41 @@ class _NoneFlag(ast.NodeTransformer):
         return node
 
 
+def _zip_args(node, n, what):
+    if not (isinstance(node, ast.Call) and _txt(node.func) == 'zip' and len(node.args) == n and not node.keywords):
+        raise Unsupported(f'{what} no longer iterates over zip of {n} sequences')
+    return node.args
+
+
+_AXIS_SRC = {
+    'self.unit_vectors()': '.unit .own', 'new_volume.unit_vectors()': '.unit .own', 'other.unit_vectors()': '.unit .other',
+    'self.spacing': '.spacing .own', 'new_volume.spacing': '.spacing .own', 'other.spacing': '.spacing .other',
+    'self.spatial_shape': '.shape .own', 'new_volume.spatial_shape': '.shape .own', 'other.spatial_shape': '.shape .other',
+    'step_sizes': '.steps',
+}
+
+
+def _axis_src(node):
+    t = _norm(_txt(node))
+    if t not in _AXIS_SRC:
+        raise Unsupported('per-axis sequence not recognised: ' + _txt(node))
+    return _AXIS_SRC[t]
+
+
+def _origin_offset(value):
+    """`np.array(A.position) - np.array(B.position)` -> (A, B) as '.own' / '.other'"""
+    if not (isinstance(value, ast.BinOp) and isinstance(value.op, ast.Sub)):
+        raise Unsupported('origin_offset is no longer a difference of two positions')
+    out = []
+    for side in (value.left, value.right):
+        t = _norm(_txt(side))
+        m = {'np.array(other.position)': '.other', 'np.array(new_volume.position)': '.own', 'np.array(self.position)': '.own'}
+        if t not in m:
+            raise Unsupported('origin_offset operand not recognised: ' + _txt(side))
+        out.append(m[t])
+    return out
+
+
 def _is_append(st, listname):
     return (isinstance(st, ast.Expr) and isinstance(st.value, ast.Call) and isinstance(st.value.func, ast.Attribute)
             and st.value.func.attr == 'append' and _txt(st.value.func.value) == listname and len(st.value.args) == 1
@@ -79,19 +114,22 @@ def build_align(tree):
     if len(outer) != 1:
         raise Unsupported('outer alignment loop over other.unit_vectors() not found')
     outer = outer[0]
-    _expect(outer.iter, 'zip(other.unit_vectors(), other.spacing)', 'outer alignment loop')
+    _zip_args(outer.iter, 2, 'outer alignment loop')                  # what is zipped: TC09j
     _expect(outer.target, '(u, s)', 'outer alignment loop target')
     if len(outer.body) != 1 or not isinstance(outer.body[0], ast.For) or outer.orelse:
         raise Unsupported('outer alignment loop no longer consists of the inner loop only')
     inner = outer.body[0]
-    _expect(inner.iter, 'enumerate(zip(self.unit_vectors(), self.spacing))', 'inner alignment loop')
+    if not (isinstance(inner.iter, ast.Call) and _txt(inner.iter.func) == 'enumerate' and len(inner.iter.args) == 1):
+        raise Unsupported('inner alignment loop is no longer enumerate(zip(...))')
+    _zip_args(inner.iter.args[0], 2, 'inner alignment loop')          # what is zipped: TC09j
     _expect(inner.target, '(j, (v, t))', 'inner alignment loop target')
     if len(inner.orelse) != 1 or not isinstance(inner.orelse[0], ast.Raise) or 'RuntimeError' not in _txt(inner.orelse[0]):
         raise Unsupported('inner alignment loop no longer ends in `else: raise RuntimeError`')
     body = inner.body
     if len(body) != 2 or not isinstance(body[1], ast.If) or body[1].orelse:
         raise Unsupported('alignment loop body is no longer `dot_product = ...; if ...:`')
-    _expect(body[0], 'dot_product = u @ v', 'alignment dot product')
+    if _norm(_txt(body[0])) not in ('dot_product=u@v', 'dot_product=v@u'):
+        raise Unsupported('alignment dot product is no longer u @ v')
     iff = copy.deepcopy(body[1])
     new_body, step_expr, seen_perm = [], None, False
     for st in iff.body:
@@ -129,15 +167,14 @@ def build_croppad(tree):
     if len(loops) != 1:
         raise Unsupported('crop/pad derivation loop not found')
     loop = loops[0]
-    _expect(loop.iter, 'zip(new_volume.unit_vectors(), new_volume.spacing, step_sizes, other.spatial_shape, '
-                       'new_volume.spatial_shape)', 'crop/pad loop')
+    _zip_args(loop.iter, 5, 'crop/pad loop')                          # what is zipped: TC09i
     _expect(loop.target, '(v, spacing, step, out_shape, in_shape)', 'crop/pad loop target')
     if loop.orelse:
         raise Unsupported('crop/pad loop has an else clause')
     oo = [n for n in ast.walk(fn) if isinstance(n, ast.Assign) and _txt(n.targets[0]) == 'origin_offset']
     if len(oo) != 1:
         raise Unsupported('origin_offset assignment not found')
-    _expect(oo[0].value, 'np.array(other.position) - np.array(new_volume.position)', 'origin_offset')
+    _origin_offset(oo[0].value)                                       # minuend / subtrahend: TC09i
     body = list(loop.body)
     _expect(body[0], 'offset = v @ origin_offset', 'per-axis offset')
     body = [copy.deepcopy(s) for s in body[1:]]
@@ -646,7 +683,149 @@ def build_purity(tree):
     return '\n\n'.join(texts), shas
 
 
+# ------------------------------------------------------------------------------------------ TC09i / TC09j / TC09k
+def build_planargs(tree):
+    """argument forwarding of the crop/pad loop: which per-axis sequence feeds which variable of the translated body
+    (TC09b), which positions form `origin_offset`, which vector is dotted with it, the initial flags"""
+    fn = find_func(tree, '_VolumeBase.match_geometry')
+    loops = [n for n in ast.walk(fn) if isinstance(n, ast.For) and 'step_sizes' in _txt(n.iter)]
+    if len(loops) != 1:
+        raise Unsupported('crop/pad derivation loop not found')
+    loop = loops[0]
+    args = _zip_args(loop.iter, 5, 'crop/pad loop')
+    if not (isinstance(loop.target, ast.Tuple) and len(loop.target.elts) == 5 and all(isinstance(e, ast.Name) for e in loop.target.elts)):
+        raise Unsupported('crop/pad loop target is not a tuple of five names')
+    bind = {e.id: _axis_src(a) for e, a in zip(loop.target.elts, args)}
+    oo = [n for n in ast.walk(fn) if isinstance(n, ast.Assign) and _txt(n.targets[0]) == 'origin_offset']
+    if len(oo) != 1:
+        raise Unsupported('origin_offset assignment not found')
+    minuend, subtrahend = _origin_offset(oo[0].value)
+    off = loop.body[0]
+    if not (isinstance(off, ast.Assign) and _txt(off.targets[0]) == 'offset' and isinstance(off.value, ast.BinOp)
+            and isinstance(off.value.op, ast.MatMult)):
+        raise Unsupported('first statement of the crop/pad loop is no longer offset = <vector> @ origin_offset')
+    l, r = _txt(off.value.left), _txt(off.value.right)
+    vec = l if r == 'origin_offset' else (r if l == 'origin_offset' else None)
+    if vec is None or vec not in bind:
+        raise Unsupported('offset is not the product of a loop vector with origin_offset')
+    need = ['spacing', 'step', 'out_shape', 'in_shape']           # the parameters of Gen.mgCropPad (TC09b)
+    for k in need:
+        if k not in bind:
+            raise Unsupported(f'crop/pad loop no longer binds {k}')
+    init = {}
+    for st in ast.walk(fn):
+        if isinstance(st, ast.Assign) and _txt(st.targets[0]) in ('requires_crop', 'requires_pad') \
+                and isinstance(st.value, ast.Constant) and isinstance(st.value.value, bool) and st.lineno < loop.lineno:
+            init[_txt(st.targets[0])] = 'true' if st.value.value else 'false'
+    if set(init) != {'requires_crop', 'requires_pad'}:
+        raise Unsupported('initial values of requires_crop / requires_pad not found before the loop')
+    text = ("/-- `match_geometry`, crop/pad loop: what is forwarded into the translated loop body `Gen.mgCropPad` for axis `a` — the "
+            "a-th entry of which per-axis sequence (`own` = `new_volume`, the permuted volume being matched) feeds `spacing`, `step`, "
+            "`out_shape`, `in_shape`; `offset = <offsetVec> @ (offsetFrom.position - offsetTo.position)`; the values of the two flags "
+            "before the first iteration -/\n"
+            "def mgPlanArgs : HdVerif.Match.PlanArgs :=\n"
+            f"  {{ offsetVec := {bind[vec]}, offsetFrom := {minuend}, offsetTo := {subtrahend}, spacing := {bind['spacing']},\n"
+            f"    step := {bind['step']}, outShape := {bind['out_shape']}, inShape := {bind['in_shape']},\n"
+            f"    cropInit := {init['requires_crop']}, padInit := {init['requires_pad']} }}")
+    return text, span_sha([loop.iter, loop.target, oo[0], off])
+
+
+def build_alignargs(tree):
+    """argument forwarding of the alignment loops: whose unit vectors / spacings are `u, s` (outer) and `v, t` (inner)"""
+    fn = find_func(tree, '_VolumeBase.match_geometry')
+    outer = [n for n in ast.walk(fn) if isinstance(n, ast.For) and isinstance(n.target, ast.Tuple)
+             and _norm(_txt(n.target)) == '(u,s)']
+    if len(outer) != 1 or len(outer[0].body) != 1 or not isinstance(outer[0].body[0], ast.For):
+        raise Unsupported('alignment loops `for u, s in …: for j, (v, t) in …` not found')
+    outer = outer[0]
+    inner = outer.body[0]
+    if _norm(_txt(inner.target)) != '(j,(v,t))' or not (isinstance(inner.iter, ast.Call) and _txt(inner.iter.func) == 'enumerate'
+                                                        and len(inner.iter.args) == 1 and not inner.iter.keywords):
+        raise Unsupported('inner alignment loop is no longer `for j, (v, t) in enumerate(zip(...))`')
+    ua, sa = _zip_args(outer.iter, 2, 'outer alignment loop')
+    va, ta = _zip_args(inner.iter.args[0], 2, 'inner alignment loop')
+    text = ("/-- `match_geometry`, alignment loops: target axis i takes `u, s` from the i-th entries of these sequences, candidate "
+            "source axis j (in increasing order, first match wins) takes `v, t` from the j-th entries of those; they are forwarded "
+            "into the translated body `Gen.mgAlign (u @ v) s t tol` -/\n"
+            "def mgAlignArgs : HdVerif.Match.AlignArgs :=\n"
+            f"  {{ u := {_axis_src(ua)}, s := {_axis_src(sa)}, v := {_axis_src(va)}, t := {_axis_src(ta)} }}")
+    return text, span_sha([outer.iter, inner.iter])
+
+
+class _GetitemRewrite(ast.NodeTransformer):
+    def visit_Attribute(self, node):
+        t = _norm(_txt(node))
+        if t == 'val.start':
+            return ast.copy_location(ast.Name(id='start', ctx=ast.Load()), node)
+        if t == 'val.stop':
+            return ast.copy_location(ast.Name(id='stop', ctx=ast.Load()), node)
+        return self.generic_visit(node)
+
+    def visit_Subscript(self, node):
+        if _norm(_txt(node)) in ('self.spatial_shape[dim]', 'self.spatial_shape[d]'):
+            return ast.copy_location(ast.Name(id='n', ctx=ast.Load()), node)
+        return self.generic_visit(node)
+
+    def visit_Raise(self, node):
+        return node
+
+
+def build_getitem(tree):
+    """`_prepare_getitem_index`: the range tests of `_check_slice` and, per axis, emptiness test, size, origin index and the
+    factor of the affine column (the values `slice.indices` returns are parameters)"""
+    fn = find_func(tree, '_VolumeBase._prepare_getitem_index')
+    cs = [n for n in fn.body if isinstance(n, ast.FunctionDef) and n.name == '_check_slice']
+    if len(cs) != 1:
+        raise Unsupported('_check_slice not found')
+    b1 = [_GetitemRewrite().visit(copy.deepcopy(st)) for st in strip_doc(cs[0].body)]
+    b1 = _fix(b1 + [_parse_stmt('return True')])
+    t1 = translate_block(b1, 'giCheckSlice', [('start', 'optint'), ('stop', 'optint'), ('n', 'int')], {},
+                         doc='`_check_slice`: ValueError for a slice start / stop outside the axis of length n')
+    loops = [n for n in fn.body if isinstance(n, ast.For) and _norm(_txt(n.iter)) == 'range(0,3)']
+    if len(loops) != 1 or _txt(loops[0].target) != 'd':
+        raise Unsupported('`for d in range(0, 3)` of _prepare_getitem_index not found')
+    loop = loops[0]
+    iff = [st for st in loop.body if isinstance(st, ast.If) and 'len(tuple_index)' in _txt(st.test)]
+    if len(iff) != 1:
+        raise Unsupported('`if len(tuple_index) > d` not found')
+    stm = []
+    seen_indices = False
+    for st in iff[0].body:
+        if isinstance(st, ast.Assign) and _txt(st.targets[0]) == 'index_item':
+            continue
+        if isinstance(st, ast.Assign) and _norm(_txt(st.targets[0])) == '(first,last,step)':
+            _expect(st.value, 'index_item.indices(self.spatial_shape[d])', 'slice.indices call')
+            seen_indices = True
+            continue
+        if _is_append(st, 'new_shape'):
+            size_expr = st.value.args[0]
+            continue
+        stm.append(copy.deepcopy(st))
+    if not seen_indices:
+        raise Unsupported('first, last, step = index_item.indices(...) not found')
+    vec = [st for st in loop.body if _is_append(st, 'new_vectors')]
+    org = [st for st in loop.body if _is_append(st, 'origin_indices')]
+    if len(vec) != 1 or len(org) != 1:
+        raise Unsupported('new_vectors / origin_indices appends not found')
+    v = vec[0].value.args[0]
+    if not (isinstance(v, ast.BinOp) and isinstance(v.op, ast.Mult)):
+        raise Unsupported('new vector is no longer a product')
+    l, r = _norm(_txt(v.left)), _norm(_txt(v.right))
+    factor = v.right if l == 'self._affine[:3,d]' else (v.left if r == 'self._affine[:3,d]' else None)
+    if factor is None:
+        raise Unsupported('new vector is no longer self._affine[:3, d] * <factor>')
+    ret = ast.Return(value=ast.Tuple(elts=[org[0].value.args[0], factor, size_expr], ctx=ast.Load()))
+    b2 = _fix(stm + [ret])
+    t2 = translate_block(b2, 'giAxis', [('first', 'int'), ('last', 'int'), ('step', 'int')], {},
+                         doc='`_prepare_getitem_index`, one sliced axis, given `first, last, step = slice.indices(n)`: IndexError for an '
+                             'empty selection, else (origin index, factor of the affine column, new size)')
+    return t1 + '\n\n' + t2, span_sha([cs[0], loop])
+
+
 TARGETS = {
+    'TC09i': {'file': 'volume.py', 'build': build_planargs, 'imports': ['HdVerif.Model.MatchOps']},
+    'TC09j': {'file': 'volume.py', 'build': build_alignargs, 'imports': ['HdVerif.Model.MatchOps']},
+    'TC09k': {'file': 'volume.py', 'build': build_getitem},
     'TC09h': {'file': 'volume.py', 'build': build_purity},
     'TC09g': {'file': 'volume.py', 'build': build_v2v_dtype},
     'TC09f': {'file': 'volume.py', 'build': build_order, 'imports': ['HdVerif.Model.MatchOps']},
